@@ -30,6 +30,8 @@ def all_units():
         if cls not in lib.enabled_classes():
             continue
         for fn in sorted(lib.contracts[cls]):
+            if getattr(lib.contracts[cls][fn], "assumed", False):
+                continue
             out.append(("stores", cls, fn))
     for name in ("edges", "qstore", "nodes"):
         if not os.path.exists(os.path.join(ROOT, "contracts", name + ".py")):
@@ -37,6 +39,8 @@ def all_units():
         lib = get_lib(name)
         for cls in lib.classes():
             for fn in sorted(lib.contracts[cls]):
+                if getattr(lib.contracts[cls][fn], "assumed", False):
+                    continue
                 out.append((name, cls, fn))
     return out
 
@@ -51,6 +55,18 @@ def shards_for(unit):
     if n:
         return n
     return 4 if any(h in unit[2] for h in HEAVY) else 1
+
+
+def assumed_contracts():
+    """contracts that are used by callers but whose bodies are NOT verified (reported in every evidence file)"""
+    out = []
+    for name in ("stores", "edges", "qstore", "nodes"):
+        lib = get_lib(name)
+        for cls, cs in lib.contracts.items():
+            for fn, con in cs.items():
+                if getattr(con, "assumed", False):
+                    out.append("%s:%s.%s" % (name, cls, fn))
+    return sorted(out)
 
 
 def unit_props(unit):
